@@ -1,10 +1,8 @@
 #!/bin/sh
 # refresh_all.sh: run every claimed check (quick tier) against /repo, validate evidence against the schema
 cd /verif
-for pid in $(python3-vt -c "import json;print(' '.join(c['property_id'] for c in json.load(open('MANIFEST.json'))['checks']))"); do
-  ( start=$(date +%s); timeout 1200 ./bin/check $pid --tier quick > /tmp/refresh-$pid.log 2>&1; rc=$?; end=$(date +%s); echo "$pid rc=$rc $((end-start))s $(tail -1 /tmp/refresh-$pid.log | cut -c1-140)" ) &
-done
-wait
+# five checks at a time (each one already spreads over the 16 cores)
+python3-vt -c "import json;print('\n'.join(c['property_id'] for c in json.load(open('MANIFEST.json'))['checks']))" | xargs -P 5 -I{} sh -c 'start=$(date +%s); timeout 1800 ./bin/check {} --tier quick > /tmp/refresh-{}.log 2>&1; rc=$?; end=$(date +%s); echo "{} rc=$rc $((end-start))s $(tail -1 /tmp/refresh-{}.log | cut -c1-140)"'
 python3-vt - <<'PY'
 import json, jsonschema, glob
 sch=json.load(open('/root/.vp/EVIDENCE.schema.json'))
